@@ -78,6 +78,14 @@ def posn_starts():
     return out
 
 
+def no_data_branches(f, paths):
+    """a branch on data bits makes the per-path values conditional: the summaries cannot be compared bit for bit
+    (that is C07's violation, not a construction verdict)"""
+    for p in paths:
+        if any(e[0] == "cond-data" for e in p.events):
+            raise Broken("%s branches on data bits: path summaries are not comparable with the reference (constant-time rule C07 decides such code)" % f.name)
+
+
 def check_compress_events(c, f, p, pevents, S, K03, blockbytes, domain, tag):
     """two permutation events implementing compress(domain) on block `blockbytes` (16 symbolic bytes);
     returns (S', K03') or None"""
@@ -116,6 +124,7 @@ def run_update(ck_ob, mod, label):
         return ck_ob(cond, rule, f.name, "%s[%s]" % (construct, label), ok, bad, where or where0)
     ex = make_exec(f, starts=posn_starts())
     paths = ex.run(max_paths=3000)
+    no_data_branches(f, paths)
     if len(f.loops) != 1:
         raise Broken("tinyjambu_hash_update: expected one loop (whole blocks), found %d" % len(f.loops))
     hdr = f.loops[0]["header"]
@@ -227,6 +236,7 @@ def run_finalize(ck_ob, mod, label):
         return ck_ob(cond, rule, f.name, "%s[%s]" % (construct, label), ok, bad, where or where0)
     ex = make_exec(f, starts=posn_starts())
     paths = ex.run()
+    no_data_branches(f, paths)
     n = 0
     seen = set()
     for p in paths:
